@@ -29,6 +29,7 @@ RULES = [
     ('C16', [r'^Context\.clear']),
     ('C09', [r'^WebApp\.get_script_control']),
     ('C13', [r'^VmDiscover\.disc\[']),
+    ('C02', [r'^Machine\.reset$']),
 ]
 for pid, pats in RULES:
     for c in spec.REGISTRY:
